@@ -76,6 +76,7 @@ func (r *events) Publish(payload api.EventPayload) {
 	r.mu.Lock()
 	handler := make([]eventHandlerItem, len(r.handlers))
 	copy(handler, r.handlers)
+	verifPoint("Events.snapshot", len(handler))
 	r.mu.Unlock()
 
 	// Use different locks, so unpublish is possible in the event handlers
